@@ -209,11 +209,8 @@ def run_layouts(st, sh):
     G = sh["G"]
     spans = [(s, e) for s in range(G + 1) for e in range(s + 1, G + 1)]
     for R in itertools.islice(layout_results(G), sh["r"], None, sh["n"]):
-        nonref = {tuple(sp) for k, sp, f in R if k != "R"}
         for nadd in range(1, sh["adds"] + 1):
             for adds in itertools.combinations_with_replacement(spans, nadd):
-                if any(a in nonref for a in adds):
-                    continue  # a reference never has exactly the span of a non-reference citation
                 st.evaluations += 1
                 st.traces += 1
                 st.transitions += 2
@@ -310,6 +307,9 @@ def pumped_cases(sh):
         for f in PUMP_FILLERS:
             for n in PUMP_COPIES:
                 yield {"part": sh["part"], "tok": sh["tok"], "text": head + f * n}
+            if len(head) <= 30 and len(alpha) > 0 and (head == "" or head in alpha):
+                # one document beyond 64 KiB per single-fragment head (block-wise / size-switched code paths)
+                yield {"part": sh["part"], "tok": sh["tok"], "text": head + f * (66000 // len(f) + 1)}
 
 
 def opt_shards(tier):
